@@ -1,4 +1,101 @@
-import AdfModel.Api
+/-
+  C10 — Hostile images: the guards of the read path, for EVERY byte string.
+  No well-formedness hypothesis anywhere in this file: the device content is arbitrary.
+  Theorems: a block image decoded from any 512 bytes has exactly 128 words below 2^32 (every word/byte accessor is
+  in range); names and comments handed to the caller are clamped to 30 / 79 bytes; a parsed cache record lies
+  inside the 488-byte record area (C07); hash slots are < 72; the bitmap loader never indexes past the table it
+  allocated, whatever page pointers the root block and the extension blocks contain; block numbers taken from
+  the image reach the device only through the range-checked primitive (C13).
+  Partial by nature (MANIFEST): real memory behaviour is observed by ASan/UBSan on mutated images.
+-/
+import AdfProofs.ProgLemmas
+import AdfProps.C07
+import AdfModel.File
+import AdfProofs.BitmapLoad
 namespace Adf.C10
-theorem C10_placeholder : True := trivial
+open Adf
+
+theorem wordsOf_length : ∀ (n : Nat) (b : Bytes), b.length = 4 * n → (wordsOf b).length = n := by
+  intro n
+  induction n with
+  | zero => intro b h; have : b = [] := List.eq_nil_of_length_eq_zero (by omega); subst this; rfl
+  | succ n ih =>
+    intro b h
+    match b, h with
+    | a :: b' :: c :: d :: rest, h =>
+      simp only [wordsOf, List.length_cons]
+      rw [ih rest (by simp at h; omega)]
+
+theorem padTo_length (b : Bytes) (n : Nat) : (padTo b n).length = n := by
+  unfold padTo; simp [List.length_take]
+
+/-- any byte string decodes to a full block image: 128 words, each below 2^32 -/
+theorem C10_block_image_total (b : Bytes) :
+    (blkOfBytes b).length = 128 ∧ ∀ w ∈ blkOfBytes b, w < 4294967296 := by
+  unfold blkOfBytes
+  have hw : W32 = 4294967296 := rfl
+  exact ⟨wordsOf_length 128 _ (by rw [padTo_length]), wordsOf_lt _⟩
+
+theorem cstr_length_le (b : Bytes) : (cstr b).length ≤ b.length := by
+  unfold cstr
+  induction b with
+  | nil => simp
+  | cons a t ih =>
+    simp only [List.takeWhile_cons]
+    split
+    · simp only [List.length_cons]; omega
+    · simp
+
+theorem Blk_bytes_length (b : Blk) (off len : Nat) : (b.bytes off len).length = len := by
+  unfold Blk.bytes; simp
+
+/-- whatever a header block contains, the name reported to the caller has at most 30 bytes and the comment at
+    most 79 (the C code copies them into 80-byte buffers) -/
+theorem C10_entry_strings_clamped (b : Blk) :
+    (entBlock2Entry b).name.length ≤ 30 ∧ ∀ c, (entBlock2Entry b).comment = some c → c.length ≤ 79 := by
+  unfold entBlock2Entry
+  simp only
+  refine ⟨?_, ?_⟩
+  · split <;> (try split) <;> (try split) <;>
+      (simp only []; exact Nat.le_trans (cstr_length_le _) (by rw [Blk_bytes_length]; exact Nat.min_le_right _ _))
+  · intro c hc
+    split at hc <;> (try split at hc) <;> (try split at hc) <;>
+      first
+      | (simp only [Option.some.injEq] at hc; subst hc
+         exact Nat.le_trans (cstr_length_le _) (by rw [Blk_bytes_length]; exact Nat.min_le_right _ _))
+      | (simp at hc)
+
+/-- a cache record parsed from ANY bytes is inside the record area, with a 1..30-byte name and a 0..79-byte comment
+    (the C parser copies them into name[31] / comm[80] and NUL-terminates at nLen / cLen) -/
+theorem C10_cache_record_guarded (ra : Bytes) (ptr : Nat) (e : CacheEntry) (p : Nat)
+    (h : getCacheEntry ra ptr = some (e, p)) :
+    e.nLen ≤ 30 ∧ e.cLen ≤ 79 ∧ ptr + 24 + e.nLen + 1 + e.cLen ≤ 488 ∧ e.name.length ≤ 30 ∧ e.comm.length ≤ 79 := by
+  have := C07.C07_record_in_bounds ra ptr e p h
+  unfold REC_AREA at this
+  omega
+
+/-- the hash slot of any name indexes the 72-entry table -/
+theorem C10_hash_slot (intl : Bool) (name : Bytes) : hashName intl name < 72 := by
+  unfold hashName HT_SIZE; exact Nat.mod_lt _ (by decide)
+
+/-- block numbers below 2 (boot blocks) or negative are refused before any data block is read -/
+theorem C10_data_pointer_guard (n : Nat) (h : sectLt2 n = false) : 2 ≤ n ∧ n < 2147483648 := by
+  unfold sectLt2 at h; simp at h; omega
+
+/-- **the bitmap loader never indexes past the table it allocated**: for any root block, any volume size, any
+    device content (page pointers, extension chains, cycles) and any I/O fault schedule, `adfReadBitmap` returns
+    normally or stops on the model's step bound — never on an out-of-bounds table access (the heap overflow the
+    original code had for images with more pages than the volume size implies). -/
+theorem C10_readBitmap_never_oob (c : Cfg) (v nBlock : Nat) (root : Blk) (s : St) :
+    match run c (readBitmap v nBlock root) s with
+    | (.ok _, _) => True
+    | (.fault f, _) => f.isOob = false := by
+  have h := readBitmap_never_oob c v nBlock root s
+  unfold Safe at h
+  rcases hr : run c (readBitmap v nBlock root) s with ⟨r, s'⟩
+  rw [hr] at h
+  cases r with
+  | ok a => trivial
+  | fault f => exact h
+
 end Adf.C10
